@@ -136,7 +136,7 @@ impl Property for C20 {
         let mut top_path = "/w/top.sv".to_string();
         // opaque conditions, identical for every call of the group
         let mut opaque: Vec<Fault> = vec![];
-        let cond = rng.below(10);
+        let cond = rng.below(11);
         let incl_files: Vec<String> = prog.files.iter().skip(1).cloned().collect();
         match cond {
             0 if !incl_files.is_empty() => opaque.push(Fault {
@@ -162,6 +162,7 @@ impl Property for C20 {
                         4 => t.push_str("// caf\u{e9} \u{4e16}\u{754c}\n"),
                         5 => t = t.replacen("module top;", "module top;\n  initial $display(\"h\u{e9}llo `TOPW\");", 1),
                         6 => t = format!("{}{}", gen::comment_macro_program(&mut rng), t),
+                        8 => t = t.replacen("module top;", "module top;\n  initial $display(`__FILE__, `__LINE__);", 1),
                         7 => {
                             // a top file WITHOUT any backtick: the preprocessor must still be run on it, on every route
                             // (string literals and escaped identifiers with trailing blanks or comments, lexical errors)
@@ -324,7 +325,17 @@ impl Property for C20 {
             }
         }
         sc.threads = vec![ops];
-        if rng.chance(1, 6) {
+        if rng.chance(1, 5) {
+            // the same file under another spelling of its path: every route must use the caller's spelling
+            let spelled = *rng.pick(&["./top.sv", "sub/../top.sv", ".//top.sv", "../w/top.sv", "/w/./top.sv"]);
+            for op in sc.threads[0].iter_mut() {
+                if let Op::Call(c) = op {
+                    c.path = spelled.to_string();
+                }
+            }
+            sc.vfs.push(VNode::Dir { path: "/w/sub".to_string() });
+            sc.family = format!("{} path-spelling", sc.family);
+        } else if rng.chance(1, 6) {
             // the top file lives outside the working directory, with one of its headers next to it and
             // nowhere else: no entry point may find that header (none of them searches the file's directory)
             let new_top = "/proj/src/top.sv".to_string();
